@@ -1,2 +1,186 @@
-(** C14 — property theorems (placeholder while the correspondence is being built) *)
-From PV Require Import Lib.Common Model.C14_Pheno.
+(** C14 — property theorems only: statement, [exact] of a lemma proved in Proofs/C14_Pheno.v, [Print Assumptions].
+    Model: Model/C14_Pheno.v (mirrors G_E_Phenotyping.phenotype/set_h2/set_H2, TruePhenotyping.phenotype,
+    MeanPhenotypicBreedingValue.estimate, TrueBreedingValue.estimate). *)
+From Coq Require Import String Permutation Sorted Lqa.
+From PV Require Import Lib.Common Model.C14_Pheno Proofs.C14_Pheno.
+Local Open Scope Q_scope.
+
+(** A simulated trial returns exactly one record per taxon, environment and replicate, each carrying that taxon's
+    labels and the value  truth + env effect + rep effect + error  — for every population size, every number of
+    environments and per-environment replicate counts, every variance setting and every request stream the
+    generator answers: the records whose (env, rep) labels are (1+ei, 1+ri) are exactly [n] records, the i-th one
+    carrying taxon i's labels; cells outside the design have no record; the total is n * sum(nrep). *)
+Theorem C14_one_record_per_cell : forall n t taxa grp gvm nenv nrep sde sdr sdx flat recs,
+  phenotype n t taxa grp gvm nenv nrep sde sdr sdx flat = Some recs ->
+  labels_ok n taxa grp -> length gvm = n ->
+  let tx := labels_or_auto "Taxon"%string n taxa in
+  let tg := grp_col n grp in
+  let nreps := firstn nenv nrep in
+  exists ds, parse_envs nreps n t flat = Some (ds, []) /\ map (fun ed : envdraw => length (snd ed)) ds = nreps /\
+    length recs = (n * list_sum nreps)%nat /\
+    (forall ei zenv rs ri zr ze, nth_error ds ei = Some (zenv, rs) -> nth_error rs ri = Some (zr, ze) ->
+       let cell := filter (cell_is (1 + Z.of_nat ei) (1 + Z.of_nat ri)) recs in
+       length cell = n /\
+       forall i x g v er, nth_error tx i = Some x -> nth_error tg i = Some g -> nth_error gvm i = Some v -> nth_error ze i = Some er ->
+         nth_error cell i = Some (x, g, (1 + Z.of_nat ei)%Z, (1 + Z.of_nat ri)%Z, add_effects v (scale sde zenv) (scale sdr zr) (scale sdx er))) /\
+    (forall e r, (e < 1 \/ e > Z.of_nat (length ds))%Z -> filter (cell_is e r) recs = []) /\
+    (forall ei zenv rs r, nth_error ds ei = Some (zenv, rs) -> (r < 1 \/ r > Z.of_nat (length rs))%Z ->
+       filter (cell_is (1 + Z.of_nat ei) r) recs = []).
+Proof. exact phenotype_cells. Qed.
+Print Assumptions C14_one_record_per_cell.
+
+(** The trial covers min(nenv, len(nrep)) environments — all [nenv] of them whenever nenv was not raised after the
+    replicate counts were stored ... *)
+Theorem C14_all_environments_partial : forall n t taxa grp gvm nenv nrep sde sdr sdx flat recs,
+  phenotype n t taxa grp gvm nenv nrep sde sdr sdx flat = Some recs ->
+  exists ds, parse_envs (firstn nenv nrep) n t flat = Some (ds, []) /\ length ds = Nat.min nenv (length nrep) /\
+             (forall nenv0 a, nrep = nrep_vec nenv0 a -> (forall l, a = NArr l -> length l = nenv0) -> (nenv <= nenv0)%nat -> length ds = nenv).
+Proof. exact phenotype_envs. Qed.
+Print Assumptions C14_all_environments_partial.
+
+(** ... finding C14-stale-nrep-after-nenv: nrep broadcast for nenv = 1, then nenv := 3 — environments 2 and 3 get no record *)
+Theorem C14_all_environments_refuted :
+  exists recs, phenotype 1 1 None None [[1]] 3 (nrep_vec 1 (NScalar 1)) [0] [0] [0] [[0]; [0]; [0]] = Some recs /\
+               length recs = 1%nat /\ filter (cell_is 2 1) recs = [] /\ filter (cell_is 3 1) recs = [].
+Proof. exact phenotype_stale_nrep_refuted. Qed.
+Print Assumptions C14_all_environments_refuted.
+
+(** With all noise variances zero every record equals (pointwise, as rationals) the true genotypic value of the taxon
+    whose labels it carries — for all draws. *)
+Theorem C14_zero_noise_is_truth : forall n t taxa grp gvm nenv nrep sde sdr sdx flat recs,
+  phenotype n t taxa grp gvm nenv nrep sde sdr sdx flat = Some recs ->
+  labels_ok n taxa grp -> length gvm = n -> Forall (fun v => length v = t) gvm ->
+  zero_vec sde -> zero_vec sdr -> zero_vec sdx -> length sde = t -> length sdr = t -> length sdx = t ->
+  forall rec, In rec recs ->
+    exists i v, nth_error (labels_or_auto "Taxon"%string n taxa) i = Some (p_taxa rec) /\ nth_error (grp_col n grp) i = Some (p_grp rec) /\
+                nth_error gvm i = Some v /\ qlist_eq (p_val rec) v.
+Proof. exact phenotype_zero_noise. Qed.
+Print Assumptions C14_zero_noise_is_truth.
+
+(** TruePhenotyping: exactly one record per taxon, carrying its labels and exactly its true genotypic value. *)
+Theorem C14_true_phenotype_is_truth : forall n taxa grp gvm, labels_ok n taxa grp -> length gvm = n ->
+  length (true_rows n taxa grp gvm) = n /\
+  forall i x g v, nth_error (labels_or_auto "Taxon"%string n taxa) i = Some x -> nth_error (grp_col n grp) i = Some g ->
+                  nth_error gvm i = Some v -> nth_error (true_rows n taxa grp gvm) i = Some (x, g, v).
+Proof. exact true_rows_spec. Qed.
+Print Assumptions C14_true_phenotype_is_truth.
+
+(** The generator is asked, per environment, for the environment effect, then per replicate for the replicate effect and
+    the error matrix: any well-shaped structured draws, flattened in that order, are parsed back with nothing left. *)
+Theorem C14_draws_consumed_in_order : forall n t ds tail, Forall (env_ok n t) ds ->
+  parse_envs (map (fun ed : envdraw => length (snd ed)) ds) n t (flatten_envs ds ++ tail) = Some (ds, tail).
+Proof. exact parse_flatten_envs. Qed.
+Print Assumptions C14_draws_consumed_in_order.
+
+(** Setting a heritability fixes the error variance so that genetic / (genetic + error) variance equals the target. *)
+Theorem C14_h2_calibration : forall v h : Q, 0 < v -> 0 < h -> h <= 1 -> heritability v (h2_err h v) == h.
+Proof. exact h2_calibration. Qed.
+Print Assumptions C14_h2_calibration.
+
+(** ... for the setter as coded (scalar or per-trait targets, variance of Z@u_a per trait): the stored error variance is
+    non-negative and calibrated for every trait with genetic variance; targets in (0,1] are never rejected. *)
+Theorem C14_set_h2_calibrated : forall t h gebv ve, set_h2 t h gebv = Some ve ->
+  forall j hj vj, nth_error (h2_vec t h) j = Some hj -> nth_error (var_cols t gebv) j = Some vj ->
+    exists e, nth_error ve j = Some e /\ 0 <= e /\ (0 < vj -> 0 < hj -> hj <= 1 -> heritability vj e == hj).
+Proof. exact set_h2_calibrated. Qed.
+Print Assumptions C14_set_h2_calibrated.
+
+Theorem C14_set_h2_accepts : forall t h gebv, Forall (fun x => 0 < x /\ x <= 1) (h2_vec t h) -> exists ve, set_h2 t h gebv = Some ve.
+Proof. exact set_h2_accepts. Qed.
+Print Assumptions C14_set_h2_accepts.
+
+(** Without a genotype matrix the estimate has one row per distinct (taxon[, group]) key, keys strictly sorted, and every
+    row is the arithmetic mean (sum / count, per selected trait) over exactly the records carrying that key. *)
+Theorem C14_mean_is_arithmetic_mean : forall ug hg tcols names rows tx tg tr m,
+  estimate ug hg tcols names rows None = Some (tx, tg, tr, m) ->
+  exists sel, resolve tcols names = Some sel /\
+  let ks := keys_of ug rows in
+  tx = map fst ks /\ tg = (if ug then Some (map snd ks) else None) /\ tr = tcols /\ length m = length ks /\
+  StronglySorted klt ks /\ NoDup ks /\
+  (forall k, In k ks <-> exists r, In r rows /\ key_of ug r = Some k) /\
+  forall i k, nth_error ks i = Some k ->
+    let recs := members ug k rows in
+    recs <> [] /\ (forall r, In r recs <-> In r rows /\ key_of ug r = Some k) /\
+    nth_error m i = Some (Some (map (fun j => sumQ (map (fun r => nth j (t_val r) 0) recs) / inject_Z (Z.of_nat (length recs))) sel)).
+Proof. exact estimate_groups_means. Qed.
+Print Assumptions C14_mean_is_arithmetic_mean.
+
+(** The estimate (labels exactly, values as rationals, raised errors) is invariant under every permutation of the
+    phenotype rows — with or without group column, with or without genotype matrix. *)
+Theorem C14_row_order_invariant : forall ug hg tcols names rows rows' gt,
+  Permutation rows rows' -> est_eq (estimate ug hg tcols names rows gt) (estimate ug hg tcols names rows' gt).
+Proof. exact estimate_perm. Qed.
+Print Assumptions C14_row_order_invariant.
+
+(** With a genotype matrix the output carries the genotype matrix' labels in its order; a taxon without records is
+    reported missing (no guard needed) ... *)
+Theorem C14_absent_is_missing : forall ug hg tcols names rows gtx gtg tx tg tr m,
+  estimate ug hg tcols names rows (Some (Some gtx, gtg)) = Some (tx, tg, tr, m) ->
+  forall i x, nth_error gtx i = Some x -> (forall r, In r rows -> t_taxa r <> x) -> nth_error m i = Some None.
+Proof. exact estimate_absent_missing. Qed.
+Print Assumptions C14_absent_is_missing.
+
+(** ... and a phenotyped taxon gets the arithmetic mean over all of its records, PROVIDED no group column is used or
+    every taxon's records lie in a single, non-null group ([single_key]).  Without the guard the clause is false: *)
+Theorem C14_aligned_to_genotype_order_partial : forall ug hg tcols names rows gtx gtg tx tg tr m,
+  estimate ug hg tcols names rows (Some (Some gtx, gtg)) = Some (tx, tg, tr, m) ->
+  tx = gtx /\ tg = gtg /\ tr = tcols /\ length m = length gtx /\
+  exists sel, resolve tcols names = Some sel /\
+  (ug = false \/ single_key ug rows ->
+   forall i x, nth_error gtx i = Some x -> (exists r, In r rows /\ t_taxa r = x) ->
+     let recs := filter (of_taxon x) rows in
+     recs <> [] /\
+     nth_error m i = Some (Some (map (fun j => sumQ (map (fun r => nth j (t_val r) 0) recs) / inject_Z (Z.of_nat (length recs))) sel))).
+Proof. exact estimate_aligned_partial. Qed.
+Print Assumptions C14_aligned_to_genotype_order_partial.
+
+(** finding C14-join-ignores-group: a taxon recorded in two groups gets the mean of its last group only *)
+Theorem C14_aligned_to_genotype_order_refuted :
+  exists (rows : list trow) (gtx : list str) tx tg tr m,
+    estimate true true ["y"%string] ["y"%string] rows (Some (Some gtx, None)) = Some (tx, tg, tr, m) /\
+    exists i x, nth_error gtx i = Some x /\ (exists r, In r rows /\ t_taxa r = x) /\
+      let recs := filter (of_taxon x) rows in
+      exists got, nth_error m i = Some (Some [got]) /\
+        ~ got == sumQ (map (fun r => nth 0 (t_val r) 0) recs) / inject_Z (Z.of_nat (length recs)).
+Proof. exact estimate_join_refuted. Qed.
+Print Assumptions C14_aligned_to_genotype_order_refuted.
+
+(** what the join does with a group column in general: among the groups in which a taxon was recorded, the one with
+    the greatest group id supplies the value (the faithful reading of dict(zip(...)) over the sorted group table) *)
+Theorem C14_join_takes_last_group : forall hg tcols names rows gtx gtg tx tg tr m,
+  estimate true hg tcols names rows (Some (Some gtx, gtg)) = Some (tx, tg, tr, m) ->
+  exists sel, resolve tcols names = Some sel /\
+  forall i x g, nth_error gtx i = Some x ->
+    (exists r, In r rows /\ t_taxa r = x /\ t_grp r = Some g) ->
+    (forall r g', In r rows -> t_taxa r = x -> t_grp r = Some g' -> (g' <= g)%Z) ->
+    nth_error m i = Some (Some (mean_rows sel (members true (x, g) rows))).
+Proof. exact estimate_join_last_group. Qed.
+Print Assumptions C14_join_takes_last_group.
+
+(** finding C14-null-group-drops-records: records with a null group are dropped, the phenotyped taxon is reported missing *)
+Theorem C14_phenotyped_not_missing_refuted :
+  exists (rows : list trow) (gtx : list str) tx tg tr m,
+    estimate true true ["y"%string] ["y"%string] rows (Some (Some gtx, None)) = Some (tx, tg, tr, m) /\
+    exists i x, nth_error gtx i = Some x /\ (exists r, In r rows /\ t_taxa r = x) /\ nth_error m i = Some None.
+Proof. exact estimate_null_group_refuted. Qed.
+Print Assumptions C14_phenotyped_not_missing_refuted.
+
+(** non-vacuity: a 2-taxon, 1-trait, 2-environment trial (1 and 2 replicates) with zero noise produces records; the
+    label/shape hypotheses hold; a table satisfies [single_key] with a group column; (0,1] targets exist *)
+Example C14_hyps_satisfiable :
+  let gvm := [[1]; [2 # 1]] in
+  let flat := [[0]; [0]; [0; 0];   [0]; [0]; [0; 0]; [0]; [0; 0]] in
+  (exists recs, phenotype 2 1 (Some ["b"; "a"]%string) None gvm 2 (nrep_vec 2 (NArr [1; 2]%nat)) [0] [0] [0] flat = Some recs /\ length recs = 6%nat)
+  /\ labels_ok 2 (Some ["b"; "a"]%string) None /\ length gvm = 2%nat /\ Forall (fun v => length v = 1%nat) gvm /\ zero_vec [0]
+  /\ Forall (env_ok 2 1) [([0], [([0], [[0]; [0]])])]
+  /\ single_key true [("a"%string, Some 1%Z, [1]); ("a"%string, Some 1%Z, [3]); ("b"%string, Some 2%Z, [5])]
+  /\ (exists o, estimate true true ["y"%string] ["y"%string] [("a"%string, Some 1%Z, [1]); ("a"%string, Some 1%Z, [3])] (Some (Some ["a"%string], None)) = Some o)
+  /\ Forall (fun x => 0 < x /\ x <= 1) (h2_vec 2 (HScalar (1 # 2))).
+Proof.
+  cbv zeta. split; [eexists; split; [vm_compute; reflexivity | reflexivity]|].
+  split; [split; intros l H; inversion H; reflexivity|]. split; [reflexivity|].
+  split; [repeat constructor|]. split; [repeat constructor; reflexivity|].
+  split; [repeat constructor|]. split.
+  - intros r1 r2 H1 H2. cbn in H1, H2. destruct H1 as [<-|[<-|[<-|[]]]], H2 as [<-|[<-|[<-|[]]]]; cbn; intros E; try discriminate; split; try reflexivity; discriminate.
+  - split; [eexists; vm_compute; reflexivity|]. repeat constructor; cbn; lra.
+Qed.
